@@ -416,7 +416,8 @@ func (e *Eng) eval(st *State, x ast.Expr) *Val {
 		case token.SUB:
 			return scalar(e.wrap(t, "(- "+v.T+")"), "Int", t)
 		case token.ARROW:
-			// channel receive: the value received is unknown
+			// channel receive: the value received is unknown; the receive itself is a ghost event
+			e.chanEvent(st, "recv", x.X, x.Pos())
 			return e.freshVal("recv", t)
 		case token.AND:
 			if cl, ok := x.X.(*ast.CompositeLit); ok {
